@@ -227,6 +227,11 @@ func Finish(prop, tier string, rules []*Rule, obs []*Obligation, notes []string,
 		}
 		fmt.Printf("  %-7s %-58s %s\n", r.ID, r.Title, strings.Join(parts, " "))
 	}
+	if os.Getenv("VERIF_VERBOSE") != "" {
+		for _, o := range obs {
+			fmt.Printf("    %s [%s] %s %s.%s: %s — %s (%s)\n", o.Verdict, o.Rule, o.Module, o.Pkg, o.Func, o.Construct, o.Detail, o.Pos)
+		}
+	}
 	for _, o := range viol {
 		fmt.Printf("%s: %s [%s] %s %s.%s: %s — %s\n", o.Pos, strings.ToUpper(o.Verdict), o.Rule, o.Module, o.Pkg, o.Func, o.Construct, o.Detail)
 	}
